@@ -142,9 +142,10 @@ func stable(v interface{}) string {
 
 // site is one handler instance with its scripted doubles.
 type site struct {
-	w   *world
-	ctx *middleware.Context
-	h   http.Handler
+	w         *world
+	ctx       *middleware.Context
+	h         http.Handler
+	firstAuth map[string][2]interface{} // per request kind: what a first Authorize answers
 }
 
 func newSite(w *world) *site {
